@@ -169,6 +169,8 @@ type Lockset struct {
 	Findings []LockFinding
 	// Requires lists, after Run, the functions that need a lock on entry (name -> paths).
 	Requires map[string][]string
+	// SeenFields records every guarded field that has at least one access in Funcs.
+	SeenFields map[string]bool
 }
 
 // access describes one guarded access inside a function.
@@ -186,6 +188,10 @@ func (ls *Lockset) guardedAccesses(fn *ssa.Function) []access {
 		if !ok {
 			return
 		}
+		if ls.SeenFields == nil {
+			ls.SeenFields = map[string]bool{}
+		}
+		ls.SeenFields[key] = true
 		out = append(out, access{in: in, field: key, lock: accessPath(base) + "." + mu, write: write})
 	}
 	for _, b := range fn.Blocks {
